@@ -5,7 +5,7 @@ prints one line per check: PID exit=<rc> first VIOLATION signature(s)."""
 import os, shutil, subprocess, sys, tempfile
 ROOT = os.path.dirname(os.path.dirname(os.path.abspath(__file__)))
 args = sys.argv[1:]
-tier, jobs, fams = "quick", "16", None
+tier, jobs, fams = "quick", os.environ.get("VERIF_JOBS", "16"), None
 for opt in ("--tier", "--jobs", "--families"):
     if opt in args:
         i = args.index(opt); val = args[i + 1]; del args[i:i + 2]
